@@ -61,8 +61,8 @@ func c14(c *engine.Ctx) {
 		{"setSupply", []string{B + "MintCoins", B + "BurnCoins"}},
 		{"nextSupply", []string{B + "MintCoins", B + "BurnCoins"}},
 		{"RecomputeSupply", []string{"gno.land/pkg/gnoland.(InitChainerConfig).seedSupply"}},
-		{"AddCoins", []string{B + "InputOutputCoins", B + "SendCoinsUnrestricted", B + "sendCoins", B + "MintCoins"}},
-		{"SubtractCoins", []string{B + "InputOutputCoins", B + "sendCoins", B + "BurnCoins"}},
+		{"AddCoins", []string{B + "InputOutputCoins", B + "SendCoinsUnrestricted", B + "sendCoins", B + "SendCoins" /* when sendCoins is inlined */, B + "MintCoins"}},
+		{"SubtractCoins", []string{B + "InputOutputCoins", B + "sendCoins", B + "SendCoins", B + "BurnCoins"}},
 		{"subtractCoinsUnrestricted", []string{B + "SendCoinsUnrestricted"}},
 		{"subtract", []string{B + "SubtractCoins", B + "subtractCoinsUnrestricted"}},
 		{"setSplitBalance", []string{B + "subtract", B + "AddCoins", B + "SetCoins"}},
@@ -320,11 +320,14 @@ func c14issuance(c *engine.Ctx, p *engine.Prog) {
 
 func c14pairing(c *engine.Ctx, p *engine.Prog) {
 	B := c08Bank + ".(BankKeeper)."
-	for _, sp := range []struct{ fn, debit string }{{"sendCoins", "SubtractCoins"}, {"SendCoinsUnrestricted", "subtractCoinsUnrestricted"}} {
-		f := c.MustFunc(B + sp.fn)
-		if f == nil {
+	npair := 0
+	for _, sp := range []struct{ fn, debit string }{{"sendCoins", "SubtractCoins"}, {"SendCoins", "SubtractCoins"}, {"SendCoinsUnrestricted", "subtractCoinsUnrestricted"}} {
+		// the transfer may live in the private helper or be inlined into its exported caller
+		f := p.Func(B + sp.fn)
+		if f == nil || len(f.CallsTo(B+"AddCoins")) == 0 {
 			continue
 		}
+		npair++
 		info := f.Info()
 		g := f.Graph()
 		amt := kcParam(f, "amt")
@@ -353,6 +356,7 @@ func c14pairing(c *engine.Ctx, p *engine.Prog) {
 			kcAt(c, p, "transfer-pairing", f.Name, a.Pos(), ok, why)
 		}
 	}
+	c.Floor("transfer-pairing functions", npair, 2)
 	// InputOutputCoins: behind ValidateInputsOutputs; debit in.Coins of inputs, credit out.Coins of outputs
 	if f := c.MustFunc(B + "InputOutputCoins"); f != nil {
 		info := f.Info()
